@@ -166,6 +166,11 @@ def check(case, rec):
             if obj.df_features is None or model.method != 'cycles' or 'amp_consistency' not in obj.df_features.columns:
                 continue
             r = op[1]
+            if len(history) % 2 == 0:
+                # a user who looked at the burst columns through attribute access before recomputing the edges
+                for col in ('is_burst', 'amp_consistency', 'period_consistency'):
+                    getattr(obj, col)
+                    read_before.add(col)
             held = obj.df_features                       # the caller may still hold the table it was given earlier
             before = obj.df_features.copy(deep=True)
             src = obj.thresholds if np_th else model.th  # numpy-scalar settings: lower the very objects the user stored
